@@ -3,10 +3,25 @@
 package executor
 
 import (
+	"context"
 	"time"
 
 	"github.com/ChainSafe/sygma-relayer/chains/btc/config"
+	"github.com/ChainSafe/sygma-relayer/chains/btc/mempool"
+	"github.com/btcsuite/btcd/wire"
 )
+
+// VerifC08RawTx calls the unexported rawTx.
+func (e *Executor) VerifC08RawTx(props []*BtcTransferProposal, resource config.Resource) (*wire.MsgTx, []mempool.Utxo, error) {
+	return e.rawTx(props, resource)
+}
+
+// VerifC08WatchExecution calls the unexported watchExecution (collect the per-input signatures from the channel, attach
+// them to the transaction and submit it).
+func (e *Executor) VerifC08WatchExecution(ctx context.Context, cancel context.CancelFunc, tx *wire.MsgTx,
+	props []*BtcTransferProposal, sigChn chan interface{}, sessionID, messageID string) error {
+	return e.watchExecution(ctx, cancel, tx, props, sigChn, sessionID, messageID)
+}
 
 // VerifC08ExecuteResourceProps calls the unexported executeResourceProps (build the transaction, start one signing
 // session per input through the coordinator, wait for the signatures).
